@@ -12,6 +12,7 @@ mod common;
 mod geom;
 mod plan;
 mod proto;
+mod serde_fam;
 mod history;
 mod refenc;
 
@@ -33,6 +34,7 @@ fn run_case(family: &str, args: &[u128]) -> Vec<u128> {
         "agree_dec" => proto::agree_dec(args),
         "agree_ob" => proto::agree_ob(args),
         "history" => history::history(args),
+        "serde" => serde_fam::serde_case(args),
         _ => panic!("unknown family {family}"),
     }
 }
